@@ -23,6 +23,7 @@ pub mod c16;
 pub mod c17;
 pub mod c18;
 pub mod c19;
+pub mod history;
 
 pub struct Entry {
     pub id: &'static str,
